@@ -68,6 +68,9 @@ pub fn cmd_drive(args: &[String]) {
     let steps: usize = args[3].parse().unwrap();
     match args[0].as_str() {
         "Gateway" => crate::drive_gateway::drive(seed, runs, steps, &args[4]),
+        "Token" => crate::drive_token::drive(seed, runs, steps, &args[4]),
+        "GasService" => crate::drive_gas::drive(seed, runs, steps, &args[4]),
+        "ITS" => crate::drive_its::drive(seed, runs, steps, &args[4]),
         m => panic!("no driver for module {m}"),
     }
 }
